@@ -31,7 +31,7 @@ class H:
 
     def __init__(self, name, tier="quick", unwind=None, loops=None, recursion=None, timeout=600,
                  mem_gb=16, desc="", covers=None, termination=None, stubs=None, bounds=None,
-                 weight=1, expect_unsat_covers=()):
+                 weight=1, expect_unsat_covers=(), fs_array=512, rotate=False):
         self.name = name            # path below `verif::`, e.g. c15_thread_names::c15_n1_named
         self.tier = tier            # quick harnesses also run in thorough
         self.unwind = unwind        # global unwind (None: harness attribute, default 2)
@@ -44,6 +44,8 @@ class H:
         self.bounds = bounds or {}
         self.weight = weight
         self.expect_unsat_covers = expect_unsat_covers
+        self.fs_array = fs_array  # cbmc --max-field-sensitivity-array-size (default 64 loses constants in >64-element arrays)
+        self.rotate = rotate
 
     @property
     def full(self):
@@ -97,7 +99,8 @@ def run_harness(h, meta, workdir, default_unwind=2):
     except Exception as e:  # noqa
         out.state, out.reason = "inconclusive", "prepare failed: %s" % e
         return out
-    res = kani.run_cbmc(goto, unwind, uset, h.timeout, h.mem_gb, os.path.join(workdir, short + ".cbmc.json"))
+    res = kani.run_cbmc(goto, unwind, uset, h.timeout, h.mem_gb, os.path.join(workdir, short + ".cbmc.json"),
+                        fs_array=h.fs_array)
     out.result = res
     out.wall = time.time() - t0
     out.goto = goto
